@@ -1,6 +1,6 @@
 CONFIG = {
     "level": "proof",
-    "level_text": "PARTIAL. Lean theorems (kernel-checked, no sorry/axioms) about a state-machine model of the ABCI multiplexer's proposal cache, parameterised by an arbitrary deterministic block executor: for every sequence of ABCI calls CometBFT may issue for a height (any PrepareProposal/ProcessProposal of arbitrary candidate blocks in arbitrary rounds, restarts anywhere outside a completed delivery, aborted deliveries, CheckTx/EstimateGas/queries anywhere) the committed state, the BeginBlock/DeliverTx/EndBlock results and the application hash returned for the decided block are exactly the executor's, whether served from the cache or recomputed, and the node panics on exactly the blocks the executor rejects (mux_path_independent); by induction over heights all replicas agree at every height for all assignments of execution path (replicas_agree); the block-metadata transaction binds state root and events root (meta_binds_root); isEqual is sound and compares every input of block execution, including the last-commit info (isEqual_sound, isEqual_compares_commit_info; the rule before /repo 47a524f, which did not, is kept as the labelled historical witness prefix_rule_commit_info_gap). Order independence: lemmas over List.Perm for every fold pattern found at a map-range site (sum, grouped sum, per-key write, set insert, delete by predicate, emission as a set, collect-then-sort, all/any checks, first-wins dedup sum, argmax under majority). Ties: (i) regenerated map-range site ledger (go/types) equal, by `decide`, to a hand-written expectation table mapping each of the 74 sites to its lemma or off-chain reason; (i') regenerated source facts of the cache (isEqual's parameters and conditions, BlockInfo fields, cache guards, system-transaction guards; 24 lists) pinned by `rfl` next to the model definitions they justify; (i'') regenerated ledger of the 31 uses of replica-local inputs (own identity, local min gas price, halt configuration, local upgrade backend) in the abci package, its API and the applications, each classified (accessor / construction / CheckTx-only under a positive IsCheckOnly() guard / proposer-only / node halt / local upgrade store), equal by `decide`: a new use on a delivery path breaks the build; (ii) correspondence: real multiplexers with the 8 real applications driven through generated call sequences, every response checked against the Lean model instantiated with the executor outputs observed on a cache-free oracle; (iii) twin-replica oracle on the implementation (AppHash, per-tx results, validator updates as a set, across paths, restarts from disk, both NodeDB backends, concurrent CheckTx, pruner, repeated runs).",
+    "level_text": "PARTIAL. Lean theorems (kernel-checked, no sorry/axioms) about a state-machine model of the ABCI multiplexer's proposal cache, parameterised by an arbitrary deterministic block executor: for every sequence of ABCI calls CometBFT may issue for a height (any PrepareProposal/ProcessProposal of arbitrary candidate blocks in arbitrary rounds, restarts anywhere outside a completed delivery, aborted deliveries, CheckTx/EstimateGas/queries anywhere) the committed state, the BeginBlock/DeliverTx/EndBlock results and the application hash returned for the decided block are exactly the executor's, whether served from the cache or recomputed, and the node panics on exactly the blocks the executor rejects (mux_path_independent); by induction over heights all replicas agree at every height for all assignments of execution path (replicas_agree); the block-metadata transaction binds state root and events root (meta_binds_root); isEqual is sound and compares every input of block execution, including the last-commit info (isEqual_sound, isEqual_compares_commit_info; the rule before /repo 47a524f, which did not, is kept as the labelled historical witness prefix_rule_commit_info_gap). Order independence: lemmas over List.Perm for every fold pattern found at a map-range site (sum, grouped sum, per-key write, set insert, delete by predicate, emission as a set, collect-then-sort, all/any checks, first-wins dedup sum, argmax under majority). Ties: (i) regenerated map-range site ledger (go/types) equal, by `decide`, to a hand-written expectation table mapping each of the 74 sites to its lemma or off-chain reason; (i') regenerated source facts of the cache (isEqual's parameters and conditions, BlockInfo fields, cache guards, system-transaction guards; 24 lists) pinned by `rfl` next to the model definitions they justify; (i'') regenerated ledger of the 31 uses of replica-local inputs (own identity, local min gas price, halt configuration, local upgrade backend) in the abci package, its API and the applications, each classified (accessor / construction / CheckTx-only under a positive IsCheckOnly() guard / proposer-only / node halt / local upgrade store), equal by `decide`: a new use on a delivery path breaks the build; (i''') every call of the node-local upgrade manager with the exits of the statement consuming its result: SubmitDescriptor/CancelUpgrade results are only logged (pinned verbatim), all other calls only halt or panic the node; (ii) correspondence: real multiplexers with the 8 real applications driven through generated call sequences, every response checked against the Lean model instantiated with the executor outputs observed on a cache-free oracle; (iii) twin-replica oracle on the implementation (AppHash, per-tx results, validator updates as a set, across paths, restarts from disk, both NodeDB backends, concurrent CheckTx, pruner, repeated runs).",
     "technique": "Lean 4 proof over a reference model of the proposal cache + List.Perm order-independence lemmas; regenerated map-range ledger (go/types) discharged by decide; witness-checking correspondence and twin-replica differential runs on the real multiplexer",
     "models": ["mux"],
     "lean_sources": ["OasisModel/Mux", "OasisModel/Proto.lean", "OasisProofs/Helpers/Mux.lean"],
@@ -8,18 +8,19 @@ CONFIG = {
         {"kind": "maprange", "out": "MapRangeSites.lean"},
         {"kind": "muxfacts", "out": "MuxFacts.lean"},
     ],
-    "generated_obligations": 74 + 24 + 31,
+    "generated_obligations": 74 + 24 + 31 + 8,
     "drivers": [
         {"name": "muxdrv",
          "quick": ["-cases", "12", "-heights", "12", "-reps", "2"],
          "thorough": ["-cases", "150", "-heights", "20", "-reps", "2"],
          "timeout_quick": 1200, "timeout_thorough": 6000},
-        # genesis variant with a durable stake tie at the validator election cut-off (MaxValidators = 3,
+        # second genesis variant: first block at height 16817 (dump-restore genesis, InitialHeight > 1),
+        # consensus MinGasPrice 0, and a durable stake tie at the validator election cut-off (MaxValidators = 3,
         # entities 1 and 2 tied, no fees / proposer / election rewards): makes the election depend on the
         # order in which entity addresses are collected, so an unsorted map range there diverges
         {"name": "muxdrv",
-         "quick": ["-tie", "-cases", "4", "-heights", "12", "-reps", "2"],
-         "thorough": ["-tie", "-cases", "40", "-heights", "16", "-reps", "2"],
+         "quick": ["-tie", "-genesis-height", "16817", "-cases", "4", "-heights", "12", "-reps", "2"],
+         "thorough": ["-tie", "-genesis-height", "16817", "-cases", "40", "-heights", "16", "-reps", "2"],
          "timeout_quick": 1200, "timeout_thorough": 6000},
     ],
     "trusted_base": [
@@ -28,6 +29,7 @@ CONFIG = {
         "tools/gen/muxfacts.go (go/ast: prints conditions, assignments, call arguments and struct fields of the cache code as canonical source text)",
         "tools/gen/maprange.go (go/types via golang.org/x/tools/go/packages: lists map ranges and maps.Keys/Values calls) and the reading of each listed site recorded in the expectation table of OasisProofs/Props/C01.lean",
         "replicas run with DIFFERENT own identities (validator i's node key is replica i's OwnTxSigner; the oracle has a neutral one) and different local min gas prices; the main genesis has consensus MinGasPrice = 1 and a quarter of the transactions are signed by validators' node keys with nil / below-minimum / at-minimum / higher fees, so identity or local configuration leaking into delivery shows as twin-deliver-result-differs",
+        "every node under test has a REAL upgrade manager (upgrade.New) over its own persistent store; each history submits an upgrade proposal and later a cancel-upgrade proposal, voted in by the validator entities, so the blocks closing them call the node-local store on replicas that executed them a different number of times; genesis heights 1 and 16817; 1-3 proposals at every height including the very first",
         "harness/cmd/muxdrv (generators, canonical digests of ABCI responses, the oracle), harness/hlib, the verif-tagged hook go/consensus/cometbft/abci/export_verif.go (working roots, resetProposal, proposal-state probe)",
         "modelled, not verified: the applications are an arbitrary function `Apps` (their determinism is what the map-range ledger, the other properties and the twin-replica runs address); CometBFT is the grammar of calls; `restart` is 'state as of the last Commit'",
     ],
